@@ -419,3 +419,15 @@ Definition all_rules : list rule := prepass ++ flat_map group_rules all_groups.
 
 Definition quiet (s : bytes) : bool :=
   beq (lower s) s && forallb (fun r => quiet_rule r s) all_rules.
+
+(* token-level form of the side condition (what the check uses): no token is an operator word, and
+   no token contains a byte the sanitizer rewrites, treats as white space or would lower-case *)
+Definition op_word_list : list bytes :=
+  map B ["and"; "or"; "not"; "eq"; "-eq"; "equals"; "neq"; "-neq"; "ne"; "-ne"; "le"; "-le"; "leq"; "-leq";
+         "ge"; "-ge"; "geq"; "-geq"; "g"; "-g"; "gt"; "-gt"; "greater"; "l"; "-l"; "lt"; "-lt"; "less"].
+Definition plain_byte (c : ascii) : bool :=
+  let n := N_of_ascii c in
+  (n <? 128)%N && negb ((65 <=? n) && (n <=? 90))%N && negb (n =? 12)%N
+  && negb (inb c ["*"; "+"; "{"; "}"; "["; "]"]%char).
+Definition plain_toks (ts : list bytes) : bool :=
+  forallb (fun t => negb (existsb (beq t) op_word_list) && forallb plain_byte t) ts.
